@@ -121,8 +121,13 @@ def gen(seed, tier):
             pat = [(['v', 100 + j] if rng.random() < 0.6 else TM.J(TM.rnd_term(rng, 0, 1, lists=False) if rng.random() < 0.5 else ('a', rng.choice('ab')))) for j in range(ar)]
             pat = [x if x[0] != 's' else ['a', 'a'] for x in pat]
             ops.append(['IUSE', rng.choice('qqr'), pat])
-        elif k < 0.92:
+        elif k < 0.9:
             ops.append(['ISTEP', rng.randrange(3)])
+        elif k < 0.92:
+            # a selective retractall with a ground pattern (done only while no use is suspended): what it leaves behind
+            # must keep behaving as stored
+            ar = rng.choice((1, 2, 2))
+            ops.append(['RETRACTALL', [['a', rng.choice(['a', 'b', 'c', 'fill1', 'fill2'])] for _ in range(ar)]])
         elif k < 0.94:
             # depth faults: an assert whose copy overflows the stack half-way, or a use of a deep non-ground fact
             # that is aborted by the recursion limit; both are handled by the caller
@@ -147,6 +152,8 @@ def show_op(op):
         return 'USE p(%s)' % ','.join(TM.show(TM.T(t)) for t in op[1])
     if op[0] == 'IUSE':
         return 'start independent %s p(%s)' % ('query' if op[1] == 'q' else 'retract', ','.join(('<150-deep %s ending in %s>' % (t[1], TM.show(TM.T(t[2]))) if t[0] == 'deep' else TM.show(TM.T(t))) for t in op[2]))
+    if op[0] == 'RETRACTALL':
+        return 'retractall p(%s)' % ','.join(TM.show(TM.T(t)) for t in op[1])
     if op[0] == 'ISTEP':
         return 'step independent use #%d' % op[1]
     if op[0] == 'FAULTASSERT':
@@ -250,6 +257,22 @@ def execute(plan):
             if kind == 'NEWVAR':
                 pool.newvar()
                 log.ev('newvar')
+            elif kind == 'RETRACTALL':
+                if n_uses() or any(not f_['task'].done for f_ in indep if f_.get('task') is not None):
+                    log.ev('noop')
+                    continue
+                pat_ = [TM.T(t) for t in op[1]]
+                key_ = ('p', len(pat_))
+                n_ = sum(1 for _ in yp.query('retractall', [yp.functor('p', [TM.build(yp, t, {}) for t in pat_])]))
+                gone_ = 0
+                for rid_, row_ in model.snapshot(key_):
+                    if model.match(pat_, row_, {}) is not None:
+                        model.remove_id(key_, rid_)
+                        gone_ += 1
+                log.count('selective_retractall')
+                if gone_ and model.rows(key_):
+                    log.count('selective_retractall_left_facts_behind')
+                log.ev('retractall', len(pat_), n_, gone_)
             elif kind == 'PUSH':
                 if len(stack) >= 7:
                     log.ev('noop')
